@@ -21,6 +21,7 @@ import (
 	"github.com/tendermint/tendermint/libs/service"
 	tmsync "github.com/tendermint/tendermint/libs/sync"
 	"github.com/tendermint/tendermint/libs/timer"
+	"github.com/tendermint/tendermint/libs/verifhook"
 	tmp2p "github.com/tendermint/tendermint/proto/tendermint/p2p"
 )
 
@@ -861,6 +862,7 @@ func (ch *Channel) recvPacketMsg(packet tmp2p.PacketMsg) ([]byte, error) {
 		return nil, fmt.Errorf("received message exceeds available capacity: %v < %v", recvCap, recvReceived)
 	}
 	ch.recving = append(ch.recving, packet.Data...)
+	verifhook.Point("mconn.recving", int(ch.desc.ID), len(ch.recving), ch.desc.RecvMessageCapacity)
 	if packet.EOF {
 		msgBytes := ch.recving
 
